@@ -50,6 +50,11 @@ def rand_scenario(rng, drv, k):
           "latencies": [rng.choice([0.0, 0.0, 0.0005, 0.002]) for _ in range(rng.randrange(0, 30))], "tag": "rand:%d" % k}
     if drv in ("luba", "sci"):
         sc["coalesce"] = rng.choice([0, 0, 1, 2])      # how the serial port hands over frames that arrived together
+        if rng.random() < 0.3:
+            # bus time: what the gateway reports for a frame arrives 30 ms after the write, i.e. later than the 25 ms the
+            # driver waits for an answer once the frame has been confirmed
+            sc["latency"] = 0.03
+            sc["latencies"] = []
     return sc
 
 
@@ -97,6 +102,23 @@ def cancel_queued(drv, tier):
     return out if tier == "thorough" else out[::2]
 
 
+def bad_close(drv, tier):
+    """a sequence whose clean-up misbehaves (it yields once more when it is closed) is cancelled in mid-flight while
+    two callers wait: close() raises, yet the lock must be free again and the others must come out whole"""
+    out = []
+    for cw in (2, 3, 4):
+        for cmode in ("send", "sequence"):
+            for plan in ([1] * 30, [-1], [0, 1, 1, 0, 1, 1, 1, 1, 1, 1, 1, 1, 1, 1, 1, 1]):
+                out.append({"driver": drv, "release_plan": list(plan), "outcomes": [["val", 11], ["none", 0], ["val", 99]],
+                            "callers": [
+                                {"name": "A", "mode": "sequence", "unit": [["q16", 1], ["cfg", 2], ["q16", 3], ["q16", 4]],
+                                 "start": {"time": 0.0}, "cancel": {"writes": cw}, "badclose": 1},
+                                {"name": "B", "mode": cmode, "unit": [["q16", 9], ["dapc", 10]], "start": {"writes": 1}},
+                                {"name": "C", "mode": "send", "unit": [["q16", 17]], "start": {"writes": 1}}],
+                            "tag": "bad-close"})
+    return out if tier == "thorough" else out[::2]
+
+
 def scenarios(tier, seed, drivers_=("tridonic", "hasseb", "luba", "sci")):
     rng = random.Random(seed)
     scs = []
@@ -109,6 +131,7 @@ def scenarios(tier, seed, drivers_=("tridonic", "hasseb", "luba", "sci")):
             sysm = sysm[::3]
         scs += sysm
         scs += cancel_queued(drv, tier)
+        scs += bad_close(drv, tier)
     return scs
 
 
